@@ -243,10 +243,11 @@ class Pipeline(Machine):
                 pay_exp[pname] = ("hex", hx)
         deps, dep_exp = {}, {}
         if op["dep_depth"]:
-            cdesc = self._child(host, model, s.sub("child"), op, op["dep_depth"], w)
-            form = op["dep_form"] if op["dep_form"] != "mixed" else s.choice(["inline", "path"])
-            deps["#dep0"] = cdesc
-            dep_exp["#dep0"] = {"desc": cdesc, "form": form}
+            for dk in range(s.choice([1, 1, 2])):
+                cdesc = self._child(host, model, s.sub("child", dk), op, op["dep_depth"] if dk == 0 else 1, w)
+                form = op["dep_form"] if op["dep_form"] != "mixed" else s.choice(["inline", "path"])
+                deps[f"#dep{dk}"] = cdesc
+                dep_exp[f"#dep{dk}"] = {"desc": cdesc, "form": form}
         g = gen.DescGen(s.sub("root"), op["features"], w, size=op["size"])
         desc = g.envelope(payload_names=payloads or None, dep_names=None)
         refs = list(g.refs)
@@ -267,8 +268,9 @@ class Pipeline(Machine):
         desc, refs, pay_exp, dep_exp = self._build(host, model, op)
         vs = []
         # dependencies: create each child alone first (its bytes are the reference for byte-identical embedding)
+        dep_seq = []
         for dname, de in dep_exp.items():
-            child_rel = f"child_{op['i']}.suit"
+            child_rel = f"child_{op['i']}_{dname[1:]}.suit"
             oc = world.create(host, copy.deepcopy(de["desc"]), child_rel, fmt=op["fmt"], entry="cli")
             if not oc.ok:
                 ex["descriptions"] += 1
@@ -281,16 +283,17 @@ class Pipeline(Machine):
             ref = self._ref_path(host, model, child_rel) if de["form"] == "path" else copy.deepcopy(de["desc"])
             env["suit-integrated-dependencies"][dname] = ref
             # the parent also records the dependency's digest and size
-            alg = Stream(op["gen"], "depalg").choice(gen.DIGEST_ALGS)
+            alg = Stream(op["gen"], "depalg", dname).choice(gen.DIGEST_ALGS)
             de["alg"] = alg
-            seq = [{"suit-directive-override-parameters": {
+            dep_seq += [{"suit-directive-override-parameters": {
                 "suit-parameter-image-digest": {"suit-digest-algorithm-id": alg, "suit-digest-bytes": {
                     "envelope": ref if de["form"] == "path" else copy.deepcopy(de["desc"])}},
                 "suit-parameter-image-size": {"envelope": ref if de["form"] == "path" else copy.deepcopy(de["desc"])}}},
                 {"suit-condition-dependency-integrity": []}]
-            desc["SUIT_Envelope_Tagged"]["suit-manifest"]["suit-validate"] = seq + \
+        if dep_seq:
+            # suit-validate stays where the generator put it, or becomes the last manifest member
+            desc["SUIT_Envelope_Tagged"]["suit-manifest"]["suit-validate"] = dep_seq + \
                 desc["SUIT_Envelope_Tagged"]["suit-manifest"].get("suit-validate", [])
-            # reference bookkeeping: suit-validate comes where the generator put it, or last
         same_desc_again = op["desc"] in model["descs"]
         out_rel = op["out"] + ".suit"
         ex["descriptions"] += 1
